@@ -49,6 +49,11 @@ func usage() {
 }
 
 func main() {
+	if a := os.Getenv("DEPSCHECK_ARCH"); a != "" {
+		// run the rules for another GOARCH (used by the sensitivity suite for
+		// mutants that only matter where int has 32 bits)
+		archOverride = a
+	}
 	if len(os.Args) < 2 {
 		usage()
 	}
